@@ -15,6 +15,9 @@ Everything is for all type trees, all names, all candidate configurations, all c
                            under which the Spec decoder returns the value; `encode_general_all`: every environment
                            satisfying the intended assignment does (symbols of unused array slots are irrelevant).
 * `encode_general_zero_fixed_cex` — the guard `noZeroFarr` is necessary: for `(bytes[0] x, uint256 y)` no environment works.
+* `process_dyn_params_preserves/_monotone/_registers`, `candidates_all_branched` — the path's candidate map only grows;
+                           a size symbol registered earlier still branches over exactly its candidates after later
+                           registrations (several calldata on one path, `svm.createCalldata`).
 * `unsupported_rejected` — `fixedMxN`, `ufixedMxN`, `function` (and arrays of them) are rejected by `parse_type`.
 -/
 import HalmosVerif.Lemmas.C12Sat
@@ -154,6 +157,59 @@ theorem encode_general_zero_fixed_cex :
     rw [evalBytes_length]; rfl
   generalize evalBytes env [.sym ⟨"y", "uint256", 0⟩ 256] = buf at he hl
   simp [dec, decAt, decs, decSeq, decRep, isDyn, readWord, hl] at he
+
+
+/-! ### candidates accumulate; every configured candidate is branched -/
+
+/-- `process_dyn_params` is monotone: registering further dynamic parameters keeps every earlier entry whose symbol is not
+re-registered (and by `leaves_distinct` the symbols of different calldata created with one counter are different). -/
+theorem process_dyn_params_preserves (c : Candidates) (ds : List DynParam) (s : SymId)
+    (h : ∀ d ∈ ds, d.sizeSymbol ≠ s) : processDynParams c ds s = c s := by
+  induction ds generalizing c with
+  | nil => rfl
+  | cons d ds ih =>
+    simp only [processDynParams]
+    rw [ih _ (fun d' hd' => h d' (by simp [hd']))]
+    have := h d (by simp)
+    simp [Ne.symm this]
+
+/-- the candidate map only grows -/
+theorem process_dyn_params_monotone (c : Candidates) (ds : List DynParam) (s : SymId) (h : (c s).isSome) :
+    (processDynParams c ds s).isSome := by
+  induction ds generalizing c with
+  | nil => exact h
+  | cons d ds ih =>
+    simp only [processDynParams]
+    apply ih
+    by_cases hs : s = d.sizeSymbol <;> simp [hs, h]
+
+/-- a registered parameter gets exactly its choices (symbols pairwise different within the registration) -/
+theorem process_dyn_params_registers (c : Candidates) (ds : List DynParam) (d : DynParam) (hd : d ∈ ds)
+    (hn : (ds.map (·.sizeSymbol)).Nodup) : processDynParams c ds d.sizeSymbol = some d.sizeChoices := by
+  induction ds generalizing c with
+  | nil => simp at hd
+  | cons e ds ih =>
+    simp only [List.map_cons, List.nodup_cons, List.mem_map, not_exists, not_and] at hn
+    simp only [List.mem_cons] at hd
+    simp only [processDynParams]
+    rcases hd with rfl | hd
+    · rw [process_dyn_params_preserves _ ds _ (fun d' hd' => hn.1 d' hd')]
+      simp
+    · exact ih _ hd hn.2
+
+/-- **All candidates branched, also after later registrations.**  If `d` was registered by `ds₁`, further registrations
+`ds₂` (of other symbols) follow on the same path, and the path does not yet fix the symbol, then `calldataload` of the
+size symbol yields exactly one successor per configured candidate, carrying that candidate. -/
+theorem candidates_all_branched (c : Candidates) (ds₁ ds₂ : List DynParam) (d : DynParam) (subst : SymId → Option Nat)
+    (hd : d ∈ ds₁) (hn : (ds₁.map (·.sizeSymbol)).Nodup) (h2 : ∀ e ∈ ds₂, e.sizeSymbol ≠ d.sizeSymbol)
+    (hs : subst d.sizeSymbol = none) :
+    calldataloadSym subst (processDynParams (processDynParams c ds₁) ds₂) d.sizeSymbol = d.sizeChoices.map some := by
+  unfold calldataloadSym
+  rw [hs, process_dyn_params_preserves _ ds₂ _ h2, process_dyn_params_registers c ds₁ d hd hn]
+
+example : calldataloadSym (fun _ => none)
+    (processDynParams (processDynParams (fun _ => none) [⟨⟨"data", "length", 2⟩, [0, 65, 1024]⟩]) [⟨⟨"xs", "length", 3⟩, [0, 1, 2]⟩])
+    ⟨"data", "length", 2⟩ = [some 0, some 65, some 1024] := by decide
 
 /-! ### unsupported types -/
 
